@@ -385,6 +385,68 @@ func checkC13(p *Prog, r *Report) {
 		r.Check(ok, "startWriteContext: no new writer while an abort is pending", p.Pos(f.Body.Pos()), "increment only with the blocked bit clear", "writers enter the shared section while the socket deadline is armed")
 	}
 
+	// only the arming-error edge of abortWrite may strip the abort bits
+	for _, f := range p.AllFuncs {
+		for _, c := range p.CallsTo(f, false, "ice.UDPMuxDefault.clearWriteAbortState") {
+			r.Check(f.Name == "UDPMuxDefault.abortWrite", "abort bits stripped in "+f.Name, p.Pos(c.Pos()), "only on abortWrite's arming-error edge", "the blocked/deadline bits are cleared outside abortWrite's error edge: an abort that is still arming the socket deadline finds the blocked bit gone, never records the deadline as armed, and nobody clears it — every later write on the shared socket times out")
+		}
+	}
+	if f := p.Fn("UDPMuxDefault.clearWriteDeadlineAfterAbort"); r.Anchor("UDPMuxDefault.clearWriteDeadlineAfterAbort", f != nil) {
+		g := p.CFG(f)
+		isClear := func(n ast.Node) bool {
+			return p.nodeHasCall(n, func(x *ast.CallExpr) bool {
+				if p.CalleeName(x) != "net.PacketConn.SetWriteDeadline" || len(x.Args) != 1 {
+					return false
+				}
+				cl, ok := unparen(x.Args[0]).(*ast.CompositeLit)
+				return ok && len(cl.Elts) == 0
+			})
+		}
+		_, escapes := g.PathAvoiding(Loc{g.Entry, 0}, isClear, func(b *Block) bool { return b == g.Exit }, func(e *Edge) bool {
+			// the only way out without clearing: the abort is no longer pending (blocked bit clear)
+			for _, ft := range p.FactsOfCond(e.Cond, e.Val) {
+				if ft.Op == "==" && ft.Val && p.constName(ft.Y) == "0" && p.MentionsObj(ft.X, "ice.udpMuxWriteBlockedBit") {
+					return false
+				}
+			}
+			return true
+		})
+		r.Check(!escapes, "the last writer of an aborted section leaves only after clearing the socket deadline", p.Pos(f.Body.Pos()), "SetWriteDeadline(zero) on every exit taken with the blocked bit set", "the last writer can leave while the abort is pending without clearing the socket's write deadline (it must wait for the deadline to be recorded as armed, then clear it)")
+	}
+
+	// ---- R13.5 deadlines are per handle -------------------------------------------------------------------
+	r.Rule("R13.5", "Setting a deadline on one handle never changes a deadline of the shared connection's sockets: a handle's deadline setters may forward only to setters of the underlying connection types that have no effect.", 3)
+	for _, mname := range []string{"SetDeadline", "SetReadDeadline", "SetWriteDeadline"} {
+		f := p.Fn("sharedPacketConn." + mname)
+		if !r.Anchor("sharedPacketConn."+mname, f != nil) {
+			continue
+		}
+		forwarded := false
+		walkBody(f, func(n ast.Node) bool {
+			c, ok := n.(*ast.CallExpr)
+			if !ok {
+				return true
+			}
+			sel, ok := unparen(c.Fun).(*ast.SelectorExpr)
+			if !ok || !p.IsField(sel.X, "sharedPacketConn.underlying") || !strings.HasPrefix(sel.Sel.Name, "Set") || !strings.HasSuffix(sel.Sel.Name, "Deadline") {
+				return true
+			}
+			forwarded = true
+			for _, tn := range []string{"udpMuxedConn", "tcpPacketConn"} {
+				t := p.Fn(tn + "." + sel.Sel.Name)
+				if t == nil {
+					continue
+				}
+				effectFree := len(p.CallsIn(t, true, func(string, *ast.CallExpr) bool { return true })) == 0 && len(p.Effects(t).Writes) == 0
+				r.Check(effectFree, "sharedPacketConn."+mname+" reaches "+tn+"."+sel.Sel.Name, p.Pos(c.Pos()), "the target has no effect", "one handle's "+mname+" is forwarded to "+tn+"."+sel.Sel.Name+", which sets the deadline on the shared sockets: shutting one handle down (abortIO uses SetDeadline(now)) makes its siblings' I/O on the same connection time out")
+			}
+			return true
+		})
+		if !forwarded {
+			r.OK("sharedPacketConn."+mname+" keeps the deadline in the handle", p.Pos(f.Body.Pos()), "no call on the shared connection")
+		}
+	}
+
 	// ---- R13.4 the abort reaches the handle ---------------------------------------------------------
 	r.Rule("R13.4", "Closing an agent aborts a blocked write through the handle: abortIO uses the writeAborter interface, which every connection type handed out by the UDP mux implements, down to the mux's abortWrite.", 4)
 	wa, _ := p.Ice.Types.Scope().Lookup("writeAborter").(*types.TypeName)
